@@ -60,6 +60,7 @@ type c07Scenario struct {
 	Written    []int        `json:"written"`
 	Late       bool         `json:"late"`
 	CErr       []string     `json:"cerr"`
+	Val        string       `json:"val"`   // kind of the values the user functions write ("ord" = distinct ordinary values)
 	Order      string       `json:"order"` // directed scenario: what the driver establishes before the reducer writes
 }
 
@@ -67,6 +68,9 @@ func (s *c07Scenario) String() string {
 	o := ""
 	if s.Order != "" {
 		o = " order=" + s.Order
+	}
+	if s.Val != "" && s.Val != "ord" {
+		o += " values=" + s.Val
 	}
 	return fmt.Sprintf("%s n=%d workers=%d mb=%v reducer(stop=%d writes=%d end=%s) genk=%d ctx=%s%s",
 		s.API, s.N, s.Workers, s.MB, s.RStop, s.RW, s.REnd, s.GenK, s.Ctx, o)
@@ -158,7 +162,7 @@ type c07Run struct {
 	running    int32
 	maxRunning int32
 	mu         sync.Mutex
-	received   []int
+	received   []string // rendered values (c07Render) the reducer received
 	genDone    int32
 	ticks      int32
 	fireAt     int32
@@ -231,6 +235,27 @@ func (r *c07Run) jitter() {
 	}
 }
 
+// c07Value: the concrete Go value written for a value kind; `ord` is the ordinary (distinct) value.
+func c07Value(kind string, ord any) any {
+	switch kind {
+	case "nil":
+		return nil
+	case "typednil":
+		return (*int)(nil)
+	case "zero-int":
+		return 0
+	case "zero-str":
+		return ""
+	case "false":
+		return false
+	}
+	return ord
+}
+
+func c07Render(v any) string { return fmt.Sprintf("%T:%#v", v, v) }
+
+func (r *c07Run) ordinary() bool { return r.sc.Val == "" || r.sc.Val == "ord" }
+
 func (r *c07Run) generate(source chan<- any) {
 	defer atomic.StoreInt32(&r.genDone, 1)
 	limit := r.sc.N
@@ -278,8 +303,10 @@ func (r *c07Run) mapItem(i int, write func(v any), cancel func(error)) error {
 	case "w0":
 	case "w1", "w2":
 		for k := 1; k <= int(b[1]-'0'); k++ {
-			r.ev("map_write", "v", i*10+k)
-			write(i*10 + k)
+			if r.ordinary() {
+				r.ev("map_write", "v", i*10+k)
+			}
+			write(c07Value(r.sc.Val, i*10+k))
 			r.jitter()
 		}
 	case "cancelE":
@@ -311,9 +338,11 @@ func (r *c07Run) reduce(pipe <-chan any, write func(v any), cancel func(error)) 
 	if r.sc.RStop != 0 {
 		for v := range pipe {
 			r.mu.Lock()
-			r.received = append(r.received, v.(int))
+			r.received = append(r.received, c07Render(v))
 			r.mu.Unlock()
-			r.ev("red_recv", "v", v.(int))
+			if r.ordinary() {
+				r.ev("red_recv", "v", v)
+			}
 			cnt++
 			r.jitter()
 			if r.sc.RStop > 0 && cnt >= r.sc.RStop {
@@ -327,7 +356,7 @@ func (r *c07Run) reduce(pipe <-chan any, write func(v any), cancel func(error)) 
 	for k := 1; k <= r.sc.RW; k++ {
 		r.jitter()
 		r.ev("red_write", "k", k)
-		write("R" + strconv.Itoa(k))
+		write(c07Value(r.sc.Val, "R"+strconv.Itoa(k)))
 	}
 	if r.gated() {
 		r.openGen()
@@ -361,7 +390,14 @@ func (r *c07Run) classify(v any, err error, p any, panicked bool) c07Outcome {
 	if err == nil {
 		switch r.sc.API {
 		case "MapReduce", "MapReduceChan":
-			return c07Outcome{"ret", fmt.Sprint(v)}
+			if r.ordinary() {
+				return c07Outcome{"ret", fmt.Sprint(v)}
+			}
+			// "R1" = the value of the reducer's first write, whatever it is (same dynamic type, same value)
+			if c07Render(v) == c07Render(c07Value(r.sc.Val, "R1")) {
+				return c07Outcome{"ret", "R1"}
+			}
+			return c07Outcome{"ret", "other:" + c07Render(v)}
 		}
 		return c07Outcome{"ret", "NIL"}
 	}
@@ -897,11 +933,14 @@ func (j *c07Judge) runOnce(sc *c07Scenario, seed int64) *c07Fail {
 	}
 	if sc.DeliverAll {
 		r.mu.Lock()
-		got := append([]int(nil), r.received...)
+		got := append([]string(nil), r.received...)
 		r.mu.Unlock()
-		sort.Ints(got)
-		want := append([]int(nil), sc.Written...)
-		sort.Ints(want)
+		sort.Strings(got)
+		var want []string
+		for _, id := range sc.Written {
+			want = append(want, c07Render(c07Value(sc.Val, id)))
+		}
+		sort.Strings(want)
 		if fmt.Sprint(got) != fmt.Sprint(want) {
 			k := "value-lost"
 			if len(got) > len(want) {
